@@ -2362,6 +2362,18 @@ private:
 
       SVectorBase<R>& vec = rowVector_w(idx);
 
+      // create new columns if required; their scaling factors (0) are read below
+      for(int j = vec.size() - 1; j >= 0; --j)
+      {
+         if(vec.index(j) >= nCols())
+         {
+            LPColBase<R> empty;
+
+            for(int k = nCols(); k <= vec.index(j); ++k)
+               LPColSetBase<R>::add(empty);
+         }
+      }
+
       DataArray <int>& colscaleExp = LPColSetBase<R>::scaleExp;
 
       // compute new row scaling factor and apply it to the sides
@@ -2391,15 +2403,6 @@ private:
 
          R val = vec.value(j);
 
-         // create new columns if required
-         if(i >= nCols())
-         {
-            LPColBase<R> empty;
-
-            for(int k = nCols(); k <= i; ++k)
-               LPColSetBase<R>::add(empty);
-         }
-
          assert(i < nCols());
          LPColSetBase<R>::add2(i, 1, &idx, &val);
       }
@@ -2417,6 +2420,18 @@ private:
       int newRowScaleExp = 0;
 
       LPRowSetBase<R>::add(lhsValue, rowVec, rhsValue);
+
+      // create new columns if required; their scaling factors (0) are read below
+      for(int j = rowVec.size() - 1; j >= 0; --j)
+      {
+         if(rowVec.index(j) >= nCols())
+         {
+            LPColBase<R> empty;
+
+            for(int k = nCols(); k <= rowVec.index(j); ++k)
+               LPColSetBase<R>::add(empty);
+         }
+      }
 
       DataArray <int>& colscaleExp = LPColSetBase<R>::scaleExp;
 
@@ -2448,15 +2463,6 @@ private:
             vec.value(j) = spxLdexp(vec.value(j), newRowScaleExp + colscaleExp[i]);
 
          R val = vec.value(j);
-
-         // create new columns if required
-         if(i >= nCols())
-         {
-            LPColBase<R> empty;
-
-            for(int k = nCols(); k <= i; ++k)
-               LPColSetBase<R>::add(empty);
-         }
 
          assert(i < nCols());
          LPColSetBase<R>::add2(i, 1, &idx, &val);
@@ -2595,6 +2601,18 @@ private:
 
       SVectorBase<R>& vec = colVector_w(idx);
 
+      // create new rows if required; their scaling factors (0) are read below
+      for(int j = vec.size() - 1; j >= 0; --j)
+      {
+         if(vec.index(j) >= nRows())
+         {
+            LPRowBase<R> empty;
+
+            for(int k = nRows(); k <= vec.index(j); ++k)
+               LPRowSetBase<R>::add(empty);
+         }
+      }
+
       DataArray <int>& rowscaleExp = LPRowSetBase<R>::scaleExp;
 
       // compute new column scaling factor and apply it to the bounds
@@ -2624,15 +2642,6 @@ private:
 
          R val = vec.value(j);
 
-         // create new rows if required
-         if(i >= nRows())
-         {
-            LPRowBase<R> empty;
-
-            for(int k = nRows(); k <= i; ++k)
-               LPRowSetBase<R>::add(empty);
-         }
-
          assert(i < nRows());
          LPRowSetBase<R>::add2(i, 1, &idx, &val);
       }
@@ -2653,6 +2662,18 @@ private:
 
       if(thesense != MAXIMIZE)
          LPColSetBase<R>::maxObj_w(idx) *= -1;
+
+      // create new rows if required; their scaling factors (0) are read below
+      for(int j = colVec.size() - 1; j >= 0; --j)
+      {
+         if(colVec.index(j) >= nRows())
+         {
+            LPRowBase<R> empty;
+
+            for(int k = nRows(); k <= colVec.index(j); ++k)
+               LPRowSetBase<R>::add(empty);
+         }
+      }
 
       DataArray <int>& rowscaleExp = LPRowSetBase<R>::scaleExp;
 
@@ -2683,15 +2704,6 @@ private:
             vec.value(j) = spxLdexp(vec.value(j), newColScaleExp + rowscaleExp[i]);
 
          R val = vec.value(j);
-
-         // create new rows if required
-         if(i >= nRows())
-         {
-            LPRowBase<R> empty;
-
-            for(int k = nRows(); k <= i; ++k)
-               LPRowSetBase<R>::add(empty);
-         }
 
          assert(i < nRows());
          LPRowSetBase<R>::add2(i, 1, &idx, &val);
